@@ -8,10 +8,16 @@ import (
 	"os"
 	"path/filepath"
 	"regexp"
+	"runtime"
 	"sort"
 	"strconv"
 	"strings"
 )
+
+// The harness processes run thousands of synctest bubbles with many goroutines; under heavy machine load Go 1.25's heap
+// profiler was seen once to abort a process ("fatal error: bad use of bucket.mp", during GC mark termination, in harness
+// set-up code). Nothing here uses heap profiles: switch the sampling off so that code path is never entered.
+func init() { runtime.MemProfileRate = 0 }
 
 // ---------- PRNG (splitmix64): every random choice of a run derives from VERIF_SEED ----------
 
